@@ -657,7 +657,7 @@ func (vlog *valueLog) populateDiscardStats() error {
 	if kv.IsValuePtr(vs) {
 		var vp kv.ValuePtr
 		vp.Decode(val)
-		result, cb, err := vlog.read(&vp)
+		result, cb, err := vlog.readOf(vs.Key, &vp)
 		val = kv.SafeCopy(nil, result)
 		kv.RunCallback(cb)
 		if err != nil {
